@@ -243,6 +243,10 @@ fn child_loop<F: FnMut(Tier, usize, &mut JsonAcc)>(a: ChildArgs, mut run_item: F
         acc.count("items", 1);
         i += a.step;
     }
+    acc.count(
+        "log_octets_rendered_in_traced_executions",
+        crate::net::LOG_OCTETS_RENDERED.load(std::sync::atomic::Ordering::Relaxed),
+    );
     println!("ACC {}", acc.to_json());
     let _ = std::io::stdout().flush();
     0
